@@ -61,10 +61,12 @@ var (
 
 type echoWorld struct {
 	*PeerWorld
-	reqs    []*echoReq
-	nburst  int
-	pending map[int][]*echoReq // burst id -> own-address v4 requests of that burst
-	second  bool               // second4 is currently assigned
+	reqs       []*echoReq
+	nburst     int
+	pending    map[int][]*echoReq // burst id -> own-address v4 requests of that burst
+	second     bool               // second4 is currently assigned
+	noA4       bool               // the primary address A4 is currently removed
+	faultsSeen int64
 }
 
 func echoPayload(seed uint64, ident, seq uint16, n int) []byte {
@@ -113,7 +115,7 @@ func (w *echoWorld) request(flags int, ident, seq uint16, n int, wait bool, burs
 			r.dst = bcast4
 		}
 	}
-	r.own = r.dst == A4 || r.dst == A6 || (r.dst == second4 && w.second)
+	r.own = (r.dst == A4 && !w.noA4) || r.dst == A6 || (r.dst == second4 && w.second)
 	if r.dst == second4 {
 		w.Probes["requests_to_the_second_address"]++
 	}
@@ -169,7 +171,9 @@ func (w *echoWorld) collect() {
 				sameAddr(d.IP.Src, string(r.dst)) && sameAddr(d.IP.Dst, string(r.src)) {
 				// identical requests may have been sent while the address was and was not the
 				// stack's: a reply is attributed to one it may answer, if there is any
-				if match == nil || (r.own && !match.own) || (r.own == match.own && r.answered < match.answered) {
+				if match == nil || (r.own && !match.own) || (r.own == match.own && r.answered <= match.answered) {
+					// (among equals the most recent one: replies come at once, an earlier identical
+					// request that is still unanswered lost its reply to an injected fault)
 					match = r
 				}
 			}
@@ -220,8 +224,27 @@ func (w *echoWorld) apply(s Step) {
 			w.InjectIP(false, peer4, A4, codec.ProtoICMP, codec.EncodeICMPv4(13, 0, 0, make([]byte, 12)), 0)
 		}
 		w.collect()
+	case "linkfault":
+		// the device refuses the next frame(s): those replies are lost, the replier must go on serving
+		w.S.Link.FailWrites = 1 + s.A%2
+		w.Probes["link_write_faults_armed"]++
 	case "addr":
-		// assign or remove the stack's second address: what it owns changes during the run
+		// assign or remove one of the stack's addresses: what it owns changes during the run
+		if s.A%3 == 2 {
+			// the primary address (with the second one possibly gone too, the interface then has no IPv4 address at all)
+			if w.noA4 {
+				if err := w.S.S.AddAddress(1, ipv4.ProtocolNumber, A4); err == nil {
+					w.noA4 = false
+					w.Probes["primary_address_added_again"]++
+				}
+			} else if err := w.S.S.RemoveAddress(1, A4); err == nil {
+				w.noA4 = true
+				w.Probes["primary_address_removed"]++
+			}
+			w.Settle()
+			w.collect()
+			break
+		}
 		if w.second {
 			if err := w.S.S.RemoveAddress(1, second4); err == nil {
 				w.second = false
@@ -242,6 +265,11 @@ func (w *echoWorld) apply(s Step) {
 // checkBurst: while fewer than ten requests are pending every request is
 // answered; with more pending at once at least ten are.
 func (w *echoWorld) checkBurst(id int) {
+	if f := w.Faults["link_write_error"]; f != w.faultsSeen {
+		// a reply of this burst was refused by the device (injected): it is excused, later ones are not
+		w.faultsSeen = f
+		return
+	}
 	var own, ans int
 	for _, r := range w.reqs {
 		if r.burst == id && r.own {
@@ -280,9 +308,11 @@ func (w *echoWorld) next() Step {
 	if r.Chance(0.5) {
 		id, seq = r.Intn(65536), r.Intn(65536)
 	}
-	switch r.Pick(10, 4, 2, 2, 2) {
+	switch r.Pick(10, 4, 2, 2, 2, 1) {
+	case 5:
+		return Step{Op: "linkfault", A: r.Intn(2)}
 	case 4:
-		return Step{Op: "addr"}
+		return Step{Op: "addr", A: r.Intn(3)}
 	case 0:
 		return Step{Op: "echo", A: flags, B: id, C: seq, D: int64(n)}
 	case 1:
